@@ -6,6 +6,7 @@ import Pcore.Proofs.FilesModule
 import Pcore.Proofs.FilesError
 import Pcore.Proofs.FilesAbsent
 import Pcore.Proofs.FilesFlat
+import Pcore.Proofs.FilesKinds
 /-!
 # C15 — File-based loading maps names to definition files faithfully
 
@@ -55,6 +56,13 @@ Full statement / proved / missing
   topology).  `C15_found_iff_flat_unqualified`, `C15_flat_unqualified_outcome` (proved): hence, in the flat topology, a
   one-segment name through the dependency loader is answered exactly as the global loader's first origin dictates — also
   when a module of that name exists (without `init_typeset`), in either letter case; the modules read nothing.
+* `C15_ctor_agrees_isGlobal`, `C15_toplevel_outcome`, `C15_found_iff_toplevel`, `C15_absent_toplevel` (proved) — the three
+  kinds of loader `newFileBasedLoader` distinguishes (module name ``, pseudo name `environment`, ordinary name): smart
+  paths are module-name relative exactly for non-global loaders; for a top-level loader of any kind as the context's
+  loader and any name (any depth) `find` lets through (`Routed`), the first origin in the loader's own index decides.
+  `C15_has_iff_load_toplevel` (proved) — `HasEntry` ⇔ the lookup does not answer `notfound`, for such loaders and names;
+  `C15_has_load_disagree`, `C15_has_load_disagree_reserved` — `C15_has_load_agree_full` is false in general (`HasEntry`
+  consults the index only, `find` filters first).
 * missing: the "if" half for deeper names, type sets and ancestors that exist (type-set parent search); it is false as
   stated for layouts that define one name twice (`C15_duplicate_redefine`, known finding C15-duplicate-redefine) and the
   error of a misnamed file carries no line (`C15_misnamed_no_line`, known finding C15-misnamed-no-line).  Termination
@@ -564,6 +572,136 @@ example : Defective (.typ .alias ["Other"] []) ["Wrong"] ∧
     (runLoads 9 wrongCfg {} [["Wrong2"], ["Real"]]).2.reads = [["env", "types", "wrong2.pp"], ["env", "types", "real.pp"]] := by
   refine ⟨?_, by decide, by decide, by decide⟩
   show keyOf ["Other"] ≠ keyOf ["Wrong"]
+  decide
+
+/-! ## the three kinds of loader the constructor distinguishes; `HasEntry` against `LoadEntry` -/
+
+/-- `newFileBasedLoader` and `isGlobal()` agree: a loader's smart paths are module-name relative exactly when the loader
+    is not global — for the module name ``, for the pseudo name `environment` and for every other name (seeded change
+    C15-s8 made the constructor treat `environment` as an ordinary name) -/
+theorem C15_ctor_agrees_isGlobal (l : Lid) : (spOf l).moduleNameRelative = !isGlobalMod l.moduleName :=
+  spOf_relative l
+
+/-- a TOP-LEVEL file loader of any kind as the context's loader (the global loader; a module's loader in the flat
+    topology, whatever its name): for every name `find` lets through to the index, the first origin of the key in the
+    loader's OWN index decides the outcome, and that file is the only one read -/
+theorem C15_toplevel_outcome (cfg : Cfg) (l : Lid) (hv : cfg.via = l)
+    (hl : l = .g ∨ (∃ mod, l = .m mod) ∧ cfg.flat = true) (name : Name) (s : St) (n : Nat)
+    (hsys : sysLoad name = none) (hget : s.get l (keyOf name) = none) (hroute : Routed l name)
+    (p : Path) (ps : List Path) (hi : idx cfg l (keyOf name) = p :: ps)
+    (hnt : ∀ nm ts, bodyAt cfg.tree p ≠ some (.typ .typeset nm ts)) :
+    (loadS (n+7) cfg s name).1 = plainOutcomeAt cfg l name ∧ (loadS (n+7) cfg s name).2.reads = s.reads ++ [p] :=
+  toplevel_plain cfg l hv hl name s n hsys hget hroute p ps hi hnt
+
+theorem C15_found_iff_toplevel (cfg : Cfg) (l : Lid) (hv : cfg.via = l)
+    (hl : l = .g ∨ (∃ mod, l = .m mod) ∧ cfg.flat = true) (name : Name) (s : St) (n : Nat)
+    (hsys : sysLoad name = none) (hget : s.get l (keyOf name) = none) (hroute : Routed l name)
+    (p : Path) (ps : List Path) (hi : idx cfg l (keyOf name) = p :: ps)
+    (hnt : ∀ nm ts, bodyAt cfg.tree p ≠ some (.typ .typeset nm ts)) :
+    (∃ d, (loadS (n+7) cfg s name).1 = .found d) ↔
+      ((∃ k nm ts, bodyAt cfg.tree p = some (.typ k nm ts) ∧ keyOf nm = keyOf name) ∨ bodyAt cfg.tree p = some .bare) := by
+  rw [(toplevel_plain cfg l hv hl name s n hsys hget hroute p ps hi hnt).1, plainOutcomeAt_found]
+  constructor
+  · rintro ⟨p', ps', h', hb⟩
+    rw [hi] at h'; cases h'; exact hb
+  · intro hb; exact ⟨p, ps, hi, hb⟩
+
+/-- an unqualified name without an origin in the loader's own index: `notfound`, nothing read, one placeholder -/
+theorem C15_absent_toplevel (cfg : Cfg) (l : Lid) (hv : cfg.via = l)
+    (hl : l = .g ∨ (∃ mod, l = .m mod) ∧ cfg.flat = true) (name : Name) (s : St) (n : Nat)
+    (hsys : sysLoad name = none) (hget : s.get l (keyOf name) = none) (hroute : Routed l name)
+    (hq : qualified name = false) (hi : idx cfg l (keyOf name) = []) :
+    loadS (n+7) cfg s name = (.notfound, s.put l (keyOf name) none) :=
+  toplevel_absent cfg l hv hl name s n hsys hget hroute hq hi
+
+def kindCfg (via : Lid) : Cfg :=
+  { mods := ["mymod", "environment"], via := via, flat := true,
+    tree := [(["env", "types", "environment", "thing.pp"], .typ .object ["Environment", "Thing"] []),
+             (["env", "types", "thing.pp"], .typ .alias ["Thing"] []),
+             (["modules", "environment", "types", "environment", "thing.pp"], .typ .object ["Environment", "Thing"] []),
+             (["modules", "environment", "types", "mymod", "thing.pp"], .typ .alias ["Mymod", "Thing"] []),
+             (["modules", "environment", "types", "thing.pp"], .typ .alias ["Thing"] []),
+             (["modules", "mymod", "types", "mymod", "thing.pp"], .typ .object ["Mymod", "Mymod", "Thing"] []),
+             (["modules", "mymod", "types", "thing.pp"], .typ .alias ["Mymod", "Thing"] [])] }
+
+/-- non-vacuity, the three kinds side by side with files at BOTH candidate locations of a name (`types/thing.pp` and
+    `types/<loader name>/thing.pp`): the global loader and the `environment` loader key them `thing` and
+    `environment::thing` (not module-name relative), the ordinary module `mymod::thing` and `mymod::mymod::thing`; the
+    hypotheses of `C15_toplevel_outcome` hold (`Routed`) and each lookup reads the file its own kind of path derives -/
+example :
+    Routed (.m "environment") ["Thing"] ∧ Routed (.m "environment") ["Environment", "Thing"] ∧
+    Routed (.m "mymod") ["Mymod", "Thing"] ∧ Routed .g ["Environment", "Thing"] ∧
+    idx (kindCfg .g) (.m "environment") (keyOf ["Thing"]) = [["modules", "environment", "types", "thing.pp"]] ∧
+    idx (kindCfg .g) (.m "environment") (keyOf ["Environment", "Thing"]) =
+      [["modules", "environment", "types", "environment", "thing.pp"]] ∧
+    idx (kindCfg .g) (.m "mymod") (keyOf ["Mymod", "Thing"]) = [["modules", "mymod", "types", "thing.pp"]] ∧
+    idx (kindCfg .g) (.m "mymod") (keyOf ["Mymod", "Mymod", "Thing"]) = [["modules", "mymod", "types", "mymod", "thing.pp"]] ∧
+    idx (kindCfg .g) .g (keyOf ["Environment", "Thing"]) = [["env", "types", "environment", "thing.pp"]] ∧
+    (runLoads 7 (kindCfg (.m "environment")) {} [["Thing"], ["Environment", "Thing"], ["Mymod", "Thing"]]).1 =
+      [.found ⟨.alias, ["Thing"]⟩, .found ⟨.object, ["Environment", "Thing"]⟩, .notfound] ∧
+    (runLoads 7 (kindCfg (.m "environment")) {} [["Thing"], ["Environment", "Thing"], ["Mymod", "Thing"]]).2.reads =
+      [["modules", "environment", "types", "thing.pp"], ["modules", "environment", "types", "environment", "thing.pp"]] ∧
+    (runLoads 7 (kindCfg (.m "mymod")) {} [["Thing"], ["Mymod", "Thing"], ["Mymod", "Mymod", "Thing"]]).1 =
+      [.notfound, .found ⟨.alias, ["Mymod", "Thing"]⟩, .found ⟨.object, ["Mymod", "Mymod", "Thing"]⟩] ∧
+    (runLoads 7 (kindCfg .g) {} [["Thing"], ["Environment", "Thing"]]).2.reads =
+      [["env", "types", "thing.pp"], ["env", "types", "environment", "thing.pp"]] := by
+  refine ⟨Or.inr ⟨rfl, rfl⟩, Or.inl ⟨rfl, Or.inr ⟨_, rfl, rfl⟩⟩, Or.inl ⟨rfl, Or.inr ⟨_, rfl, rfl⟩⟩, Or.inl ⟨rfl, Or.inl rfl⟩,
+    by decide, by decide, by decide, by decide, by decide, by decide, by decide, by decide, by decide⟩
+
+/-- `HasEntry` and `LoadEntry` of a top-level file loader agree on every name `find` lets through to the index (not cached
+    yet, first origin not a type set, and — when there is no origin — unqualified, so that no parent search starts):
+    `HasEntry` answers true exactly when the lookup does not answer `notfound` (it finds the type or reports the file) -/
+theorem C15_has_iff_load_toplevel (cfg : Cfg) (l : Lid) (hv : cfg.via = l)
+    (hl : l = .g ∨ (∃ mod, l = .m mod) ∧ cfg.flat = true) (name : Name) (s : St) (n : Nat)
+    (hsys : sysLoad name = none) (hget : s.get l (keyOf name) = none) (hroute : Routed l name)
+    (habs : idx cfg l (keyOf name) = [] → qualified name = false)
+    (hnt : ∀ p ps nm ts, idx cfg l (keyOf name) = p :: ps → bodyAt cfg.tree p ≠ some (.typ .typeset nm ts)) :
+    hasEntry cfg s l (keyOf name) = true ↔ (loadS (n+7) cfg s name).1 ≠ .notfound := by
+  have hld : l ≠ .d := by
+    rcases hl with h | ⟨⟨mod, h⟩, _⟩ <;> rw [h] <;> intro h' <;> cases h'
+  have hst := sysLoad_none_static name hsys
+  have hthird : ¬ ((∃ mod, l = .m mod) ∧ cfg.flat = false ∧ idx cfg .g (keyOf name) ≠ []) := by
+    rintro ⟨⟨mod, hm⟩, hf, _⟩
+    rcases hl with h | ⟨_, h⟩
+    · rw [h] at hm; cases hm
+    · rw [h] at hf; cases hf
+  rw [hasEntry_file cfg s l hld]
+  cases hi : idx cfg l (keyOf name) with
+  | nil =>
+    rw [toplevel_absent cfg l hv hl name s n hsys hget hroute (habs hi) hi]
+    constructor
+    · rintro (h | h | h)
+      · rw [hst] at h; cases h
+      · exact absurd rfl h
+      · exact absurd h hthird
+    · intro h; exact absurd rfl h
+  | cons p ps =>
+    rw [(toplevel_plain cfg l hv hl name s n hsys hget hroute p ps hi (hnt p ps · · hi)).1]
+    constructor
+    · intro _ h
+      rw [plainOutcomeAt_notfound, hi] at h
+      cases h
+    · intro _; exact Or.inr (Or.inl (by simp))
+
+/-- full statement (false, see `C15_has_load_disagree`): `HasEntry` of a file loader answers true exactly for the names a
+    lookup through it does not answer `notfound` -/
+def C15_has_load_agree_full : Prop :=
+  ∀ (cfg : Cfg) (name : Name) (fuel : Nat), fuel ≥ 7 → cfg.via ≠ .d → sysLoad name = none →
+    (hasEntry cfg {} cfg.via (keyOf name) = true ↔ (loadS fuel cfg {} name).1 ≠ .notfound)
+
+/-- `HasEntry` looks at the index only, `find` filters first.  Two witnesses: (1) a loader called `environment` indexes
+    `types/mymod/thing.pp` as `mymod::thing` (not module-name relative) but `find` refuses every qualified name that does
+    not start with `environment`; (2) the reserved file `init_typeset.pp` of an ordinary module is indexed under the bare
+    key `init_typeset`, which `find` refuses as an unqualified name other than the module's.  (The property speaks about
+    lookups only; both sides agree — correspondence ops `has`.) -/
+theorem C15_has_load_disagree : ¬ C15_has_load_agree_full := by
+  intro h
+  have h1 := (h (kindCfg (.m "environment")) ["Mymod", "Thing"] 7 (Nat.le_refl _) (by decide) (by decide)).mp (by decide)
+  exact h1 (by decide)
+
+theorem C15_has_load_disagree_reserved :
+    hasEntry tsCfg {} (.m "mymod") (keyOf ["Init_typeset"]) = true ∧
+    (loadS 40 { tsCfg with via := .m "mymod" } {} ["Init_typeset"]).1 = .notfound := by
   decide
 
 /-! ## negation witnesses for the known findings -/
